@@ -332,3 +332,77 @@ Qed.
 
 Lemma be_to_N_bound : forall bs, Forall (fun b => (b < 256)%N) bs -> (be_to_N bs < 256 ^ N.of_nat (length bs))%N.
 Proof. intros bs HF. pose proof (be_acc_bound bs 0%N HF). unfold be_to_N. lia. Qed.
+
+(* ------------------------------------------------------------------------------------------ *)
+(** * ASCII decimal: int(str(n)) == n, and the shape of str(n) *)
+
+Lemma dec_acc_app : forall a b acc, dec_acc acc (a ++ b) = dec_acc (dec_acc acc a) b.
+Proof. induction a as [|x a IH]; intros b acc; simpl; [reflexivity | apply IH]. Qed.
+
+Lemma dec_acc_ge : forall ds acc, (acc <= dec_acc acc ds)%N.
+Proof.
+  induction ds as [|d ds IH]; intros acc; simpl; [lia|].
+  specialize (IH (acc * 10 + (d - 48))%N). lia.
+Qed.
+
+Lemma pow10_succ : forall k, (10 ^ N.of_nat (S k) = 10 * 10 ^ N.of_nat k)%N.
+Proof. intros k. rewrite Nat2N.inj_succ, N.pow_succ_r'. reflexivity. Qed.
+
+Lemma pow10_pos : forall k, (0 < 10 ^ N.of_nat k)%N.
+Proof. intros k. apply N.neq_0_lt_0. apply N.pow_nonzero. lia. Qed.
+
+Lemma lt_pow10_log2 : forall n, (n < 10 ^ N.of_nat (S (N.to_nat (N.log2 n))))%N.
+Proof.
+  intros n. rewrite Nat2N.inj_succ, N2Nat.id. destruct (N.eq_dec n 0) as [->|Hn].
+  - simpl. lia.
+  - pose proof (N.log2_spec n ltac:(lia)) as [_ H].
+    eapply N.lt_le_trans; [exact H|]. apply N.pow_le_mono_l. lia.
+Qed.
+
+Lemma digits_value : forall f n acc, (n < 10 ^ N.of_nat f)%N ->
+  dec_acc 0 (N_to_digits_fuel f n acc) = dec_acc n acc.
+Proof.
+  induction f as [|f IH]; intros n acc Hn.
+  - simpl in Hn. assert (n = 0%N) by lia. subst. reflexivity.
+  - cbn [N_to_digits_fuel]. destruct (n <? 10)%N eqn:Hlt.
+    + apply N.ltb_lt in Hlt. cbn [dec_acc]. f_equal. lia.
+    + apply N.ltb_ge in Hlt. rewrite pow10_succ in Hn.
+      rewrite IH by (apply N.div_lt_upper_bound; lia).
+      cbn [dec_acc]. f_equal. pose proof (N.div_mod n 10 ltac:(lia)) as Hdm. clear Hn IH.
+      remember (n / 10)%N as q. remember (n mod 10)%N as m. clear Heqq Heqm. lia.
+Qed.
+
+Lemma digits_to_N_to_digits : forall n, digits_to_N (N_to_digits n) = n.
+Proof. intros n. unfold digits_to_N, N_to_digits. rewrite digits_value by apply lt_pow10_log2. reflexivity. Qed.
+
+Definition digitp (x : N) : Prop := is_digit x = true.
+
+Lemma is_digit_48_plus : forall m, (m < 10)%N -> is_digit (48 + m) = true.
+Proof. intros m H. unfold is_digit. apply andb_true_iff. split; apply N.leb_le; lia. Qed.
+
+Lemma digits_shape : forall f n acc, (n < 10 ^ N.of_nat f)%N -> (0 < n)%N ->
+  exists d ds, N_to_digits_fuel f n acc = d :: ds ++ acc /\ digitp d /\ N.eqb d 48 = false /\
+               Forall digitp ds /\ (10 ^ N.of_nat (length ds) <= n)%N.
+Proof.
+  induction f as [|f IH]; intros n acc Hn Hpos.
+  - simpl in Hn. lia.
+  - cbn [N_to_digits_fuel]. destruct (n <? 10)%N eqn:Hlt.
+    + apply N.ltb_lt in Hlt. exists (48 + n)%N, []. repeat split.
+      * now apply is_digit_48_plus.
+      * apply N.eqb_neq. lia.
+      * constructor.
+      * simpl. lia.
+    + apply N.ltb_ge in Hlt. rewrite pow10_succ in Hn.
+      assert (Hq : (0 < n / 10)%N) by (apply N.div_str_pos; lia).
+      destruct (IH (n / 10)%N ((48 + n mod 10)%N :: acc) ltac:(apply N.div_lt_upper_bound; lia) Hq)
+        as (d & ds & Heq & Hd & Hd48 & Hds & Hlen).
+      exists d, (ds ++ [(48 + n mod 10)%N]). repeat split; try assumption.
+      * rewrite Heq. rewrite <- app_assoc. reflexivity.
+      * apply Forall_app. split; [assumption|]. constructor; [|constructor].
+        apply is_digit_48_plus. apply N.mod_lt. lia.
+      * rewrite app_length. simpl. rewrite Nat.add_1_r, pow10_succ.
+        pose proof (N.div_mod n 10 ltac:(lia)) as Hdm.
+        remember (n / 10)%N as q. remember (n mod 10)%N as m. remember (10 ^ N.of_nat (length ds))%N as p.
+        clear - Hdm Hlen. lia.
+Qed.
+
